@@ -35,14 +35,17 @@ func optionSet(r *Rng) ([]cfgpkg.Option, string) {
 }
 
 // one stream: a history generated from its own seed, produced and consumed; returns the canonical keys per batch
-func runStream(seed uint64, yield func(), shared int) (out []string, errs int) {
+func runStream(seed uint64, yield func(), shared int, copts []arrow_record.Option) (out []string, errs int) {
 	r := NewRng(seed)
 	g := &OGen{r: r.Fork(), Wide: r.Chance(40), Mono: monoPick(r)}
 	options, _ := optionSet(r)
 	// every allocation of the producer is a scheduling point of the cooperative scheduler
 	options = append(options, cfgpkg.WithAllocator(&yieldAllocator{inner: memory.NewGoAllocator(), yield: yield}))
 	p := arrow_record.NewProducerWithOptions(options...)
-	c := arrow_record.NewConsumer()
+	// the consumer is built from option values that a receiver typically creates once and reuses for every
+	// stream (copts); its own meter provider records the Arrow memory it reports as in use
+	mp := &capProvider{}
+	c := arrow_record.NewConsumer(append(append([]arrow_record.Option{}, copts...), arrow_record.WithMeterProvider(mp))...)
 	defer p.Close()
 	defer c.Close()
 	mode := r.Intn(4)
@@ -121,9 +124,14 @@ func runStream(seed uint64, yield func(), shared int) (out []string, errs int) {
 				keys = metricsItems(mds[0]).Keys
 			}
 		}()
-		out = append(out, fmt.Sprint(keys))
+		out = append(out, fmt.Sprint(keys)+fmt.Sprintf("|reported-inuse=%d", mp.inuse))
 	}
 	return
+}
+
+// consumer options as a receiver would hold them: created once, applied to every stream
+func sharedConsumerOptions() []arrow_record.Option {
+	return []arrow_record.Option{arrow_record.WithMemoryLimit(1 << 30)}
 }
 
 // yieldAllocator calls yield before every allocator operation.
@@ -212,8 +220,9 @@ func runIndep(o opts, out *Output) {
 		}
 		solo := make([][]string, nStreams)
 		for i, s := range seeds {
-			solo[i], _ = runStream(s, func() {}, shared)
+			solo[i], _ = runStream(s, func() {}, shared, sharedConsumerOptions())
 		}
+		copts := sharedConsumerOptions() // one set of option values for all streams of the case
 		conc := make([][]string, nStreams)
 		var wg sync.WaitGroup
 		gate := make(chan struct{})
@@ -222,7 +231,7 @@ func runIndep(o opts, out *Output) {
 			go func(i int, s uint64) {
 				defer wg.Done()
 				<-gate
-				conc[i], _ = runStream(s, func() {}, shared)
+				conc[i], _ = runStream(s, func() {}, shared, copts)
 			}(i, s)
 		}
 		close(gate)
@@ -249,7 +258,7 @@ func runIndep(o opts, out *Output) {
 					defer wg2.Done()
 					<-co.wake[i]
 					defer co.done(i)
-					coopOut[i], _ = runStream(s, func() { co.yield(i) }, shared)
+					coopOut[i], _ = runStream(s, func() { co.yield(i) }, shared, copts)
 				}(i, s)
 			}
 			co.wake[0] <- struct{}{}
